@@ -19,7 +19,7 @@ Lemma fst_same : forall s s', trace s' = trace s -> fst s' = fst s.
 Proof. intros s s' E. unfold fst. rewrite E. reflexivity. Qed.
 
 (* events that neither open nor close a wait *)
-Definition qf (e : tev) : Prop := match e with TRet _ _ _ | TWait _ _ _ _ _ _ => False | _ => True end.
+Definition qf (e : tev) : Prop := match e with TRet _ _ _ | TWait _ _ _ _ _ _ | TEnd _ _ => False | _ => True end.
 
 Lemma ch_qf : forall e, ch e -> qf e.
 Proof. intros e. destruct e; cbn; tauto. Qed.
